@@ -191,6 +191,18 @@ func keySharingOracle(r *core.Result, curve string, t int, views []*keyView, par
 		pts[i] = refPt(v0.BigXj[i])
 		xs[i] = new(big.Int).Mod(views[i].Xi, q)
 	}
+	for i := range ids {
+		if ids[i].Sign() == 0 {
+			r.Fail("key:id-zero", "share id %d is 0 modulo the group order", i)
+			return
+		}
+		for j := 0; j < i; j++ {
+			if ids[i].Cmp(ids[j]) == 0 {
+				r.Fail("key:ids-congruent", "share ids %d and %d coincide modulo the group order: the two parties hold the same share and the sharing is not (t,n)", j, i)
+				return
+			}
+		}
+	}
 	// single polynomial of degree <= t in the exponent, constant term = pub: every (t+1)-subset
 	var x0 *big.Int
 	for _, T := range subsetsOfSize(n, t+1) {
@@ -437,6 +449,19 @@ func keyIDs(pattern string, n int, curve string, seed int64) []*big.Int {
 			out[i] = new(big.Int).Sub(q, big.NewInt(int64(n-i)))
 		case "geq":
 			out[i] = new(big.Int).Add(q, big.NewInt(int64(2*i+1)))
+		case "huge": // wider than the field prime: 300-bit keys
+			out[i] = new(big.Int).Add(new(big.Int).Lsh(big1, 300), big.NewInt(int64(17*i+3)))
+		case "geP": // just above the field prime p (p > q on both curves)
+			if isEd(curve) {
+				out[i] = new(big.Int).Add(ref.EdP, big.NewInt(int64(2*i+1)))
+			} else {
+				out[i] = new(big.Int).Add(ref.SecpP, big.NewInt(int64(2*i+1)))
+			}
+		case "congruent": // the last id is congruent to the first one modulo the group order: must be refused (or handled)
+			out[i] = big.NewInt(int64(5 + 2*i))
+			if i == n-1 && n > 1 {
+				out[i] = new(big.Int).Add(q, big.NewInt(5))
+			}
 		case "new": // resharing: ids disjoint from every other pattern
 			out[i] = new(big.Int).Add(new(big.Int).Lsh(big1, 200), big.NewInt(int64(1000+7*i)))
 		case "new2":
